@@ -228,6 +228,18 @@ def _pad_rat(t, raster):
     return conv(t)
 
 
+def impl_parts(prog, t):
+    """the implementation function, its closures, and the module-level functions of the same module it calls (a closure
+    turned into a module-level function that gets what it closed over as parameters is still part of it)"""
+    from ..backends import callees
+    out = [t] + list(t.children.values())
+    for g in list(out):
+        for h in callees(prog, g):
+            if isinstance(h, Func) and h.module is t.module and h.parent is None and not any(h is x for x in out) and h.jit is None:
+                out.append(h)
+    return out
+
+
 def find_impl(prog):
     m = prog.module('proximity')
     impls = set()
@@ -239,7 +251,7 @@ def find_impl(prog):
         for n in pub.own_nodes():
             if isinstance(n, ast.Call):
                 t = prog.resolve_callable(pub, m, n.func)
-                if isinstance(t, Func) and t.module is m and any(sites_in(prog, g) for g in [t] + list(t.children.values())):
+                if isinstance(t, Func) and t.module is m and any(sites_in(prog, g) for g in impl_parts(prog, t)):
                     found = t
         if found is None:
             raise AnalysisIncomplete('%s: shared implementation with a map_overlap site not found' % name)
@@ -253,7 +265,7 @@ def check(prog, rep):
     impl = find_impl(prog)
     entry = 'proximity[dask]'
     sites = []
-    for g in [impl] + list(impl.children.values()):
+    for g in impl_parts(prog, impl):
         for s in sites_in(prog, g):
             sites.append(s)
     rep.add('P7-site', impl, entry, '%d map_overlap/map_blocks site(s)' % len(sites), impl.node.lineno,
@@ -263,6 +275,14 @@ def check(prog, rep):
     site = sites[0]
     dfun = site.scope
     kern = site.kernel()
+    if kern is None:
+        # the block function is a parameter of a module-level helper: what the implementation hands it (wrapper terms)
+        from ..wterm import WT as _WT
+        w0 = _WT(prog)
+        w0.run(impl)
+        for x in w0.calls:
+            if x.name.endswith('map_overlap') and x.args and x.args[0][0] == 'localfunc' and isinstance(x.args[0][2], Func):
+                kern = x.args[0][2]
     # ---- H0: same closure as the numpy branch
     np_calls = []
     for n in impl.own_nodes():
